@@ -1,7 +1,7 @@
 (* C12 — property theorems only. Each is closed by [exact] of a lemma proved in C12/Proofs*.v. *)
 From Coq Require Import List Arith Bool ZArith.
 Import ListNotations.
-From AgileV Require Import Base.Prelude C12.Model C12.Proofs C12.ProofsShm C12.ProofsInfo C12.ProofsVec C12.ProofsReset C12.ProofsPinned.
+From AgileV Require Import Base.Prelude C12.Model C12.Proofs C12.ProofsShm C12.ProofsInfo C12.ProofsVec C12.ProofsReset C12.ProofsPinned C12.ProofsLoop.
 
 (* Position i of every result of a vectorised run is what environment i returns when it is stepped
    alone (under auto-reset: [single_step] resets when no agent is left alive and returns the first
@@ -20,6 +20,70 @@ Theorem vec_refines_singles : forall k agents Es actss st i E s,
           (snd (vec_run k agents Es st actss)) (snd (single_run single_step E s acts_i)).
 Proof. exact vec_refines_singles_lemma. Qed.
 Print Assumptions vec_refines_singles.
+
+(* The same for EVERY environment, not only the scripted family: an environment is any pair of
+   step / reset functions over any state type; the contract is what the vector environment relies
+   on — (1) the termination / truncation flags say "every listed agent has finished" exactly when
+   the environment's agent list becomes empty, (2) observations have the sizes of the declared
+   space, (3) info dicts have no duplicate keys (they are Python dicts). Then, from construction,
+   position i of everything reset(seed) / step(actions) return is what environment i returns when it
+   is reset alone with seed + i and stepped alone under auto-reset with its own actions. *)
+Theorem vec_session_refines_any_env :
+  forall (env state : Type)
+         (e_step : env -> state -> list Z -> state * trans)
+         (e_reset : env -> state -> option Z -> state * (dict obs_t * dict info_t))
+         (e_kind : env -> okind) (e_live : state -> list nat) (s_init : state),
+  (forall E s acts, all_done_keys (snd (e_step E s acts)) = g_no_agent_left e_live (fst (e_step E s acts))) ->
+  (forall E s acts a ob, lookup a (tobs (snd (e_step E s acts))) = Some ob -> obs_ok (mshapes (e_kind E)) ob) ->
+  (forall E s seed a ob, lookup a (fst (snd (e_reset E s seed))) = Some ob -> obs_ok (mshapes (e_kind E)) ob) ->
+  (forall E s acts a d, lookup a (tinfo (snd (e_step E s acts))) = Some d -> NoDup (keys d)) ->
+  (forall E s seed a d, lookup a (snd (snd (e_reset E s seed))) = Some d -> NoDup (keys d)) ->
+  forall k agents Es seed actss i E,
+  NoDup agents -> Forall (fun E0 => e_kind E0 = k) Es -> Forall (actions_ok (length Es)) actss ->
+  nth_error Es i = Some E ->
+  let st0 := fst (g_vec_reset (g_worker_reset e_reset e_kind) e_kind k agents Es (g_vec_init s_init k agents Es) seed) in
+  let s0 := fst (e_reset E s_init (seed_of seed i)) in
+  let acts_i := map (fun actions => nth i (transpose_actions agents actions 0%Z) []) actss in
+  nth_error (vstates (fst (g_vec_run (g_worker_step e_step e_reset e_kind) e_kind k agents Es st0 actss))) i
+    = Some (fst (g_run (g_single_step e_step e_reset e_live) E s0 acts_i)) /\
+  Forall2 (fun out ref => agrees_at k agents i out (process_transition k agents ref))
+          (snd (g_vec_run (g_worker_step e_step e_reset e_kind) e_kind k agents Es st0 actss))
+          (snd (g_run (g_single_step e_step e_reset e_live) E s0 acts_i)).
+Proof. exact @g_vec_session_refines. Qed.
+Print Assumptions vec_session_refines_any_env.
+
+(* for every such environment the worker's step is the reference step followed by process_transition,
+   and the single-environment wrapper is the reference step *)
+Theorem worker_refines_single_any_env :
+  forall (env state : Type) (e_step : env -> state -> list Z -> state * trans)
+         (e_reset : env -> state -> option Z -> state * (dict obs_t * dict info_t))
+         (e_kind : env -> okind) (e_live : state -> list nat),
+  (forall E s acts, all_done_keys (snd (e_step E s acts)) = g_no_agent_left e_live (fst (e_step E s acts))) ->
+  forall E agents s acts,
+  g_worker_step e_step e_reset e_kind E agents s acts =
+  (fst (g_single_step e_step e_reset e_live E s acts),
+   process_transition (e_kind E) agents (snd (g_single_step e_step e_reset e_live E s acts))).
+Proof. exact @g_worker_refines_single. Qed.
+Print Assumptions worker_refines_single_any_env.
+
+Theorem wrapper_same_condition_any_env :
+  forall (env state : Type) (e_step : env -> state -> list Z -> state * trans)
+         (e_reset : env -> state -> option Z -> state * (dict obs_t * dict info_t))
+         (e_live : state -> list nat),
+  (forall E s acts, all_done_keys (snd (e_step E s acts)) = g_no_agent_left e_live (fst (e_step E s acts))) ->
+  forall E s acts, g_wrapper_step e_step e_reset E s acts = g_single_step e_step e_reset e_live E s acts.
+Proof. exact @g_wrapper_same_condition. Qed.
+Print Assumptions wrapper_same_condition_any_env.
+
+(* the scripted family (the one K runs against the real code) meets the contract *)
+Theorem scripted_family_meets_contract :
+  (forall E s acts, all_done_keys (snd (raw_step E s acts)) = g_no_agent_left live (fst (raw_step E s acts))) /\
+  (forall E s acts a ob, lookup a (tobs (snd (raw_step E s acts))) = Some ob -> obs_ok (mshapes (kind E)) ob) /\
+  (forall E s seed a ob, lookup a (fst (snd (env_reset E s seed))) = Some ob -> obs_ok (mshapes (kind E)) ob) /\
+  (forall E s acts a d, lookup a (tinfo (snd (raw_step E s acts))) = Some d -> NoDup (keys d)) /\
+  (forall E s seed a d, lookup a (snd (snd (env_reset E s seed))) = Some d -> NoDup (keys d)).
+Proof. exact (conj all_done_keys_spec (conj raw_obs_ok (conj reset_obs_ok (conj raw_info_nodup reset_info_nodup)))). Qed.
+Print Assumptions scripted_family_meets_contract.
 
 (* [agrees_at] spelled out (so that the statement above can be read without the proof files):
    observation row i, reward, termination, truncation at position i, and the info entries / agent
@@ -124,6 +188,15 @@ Theorem slice_write_read : forall i j n size (row flat : list Z),
   read_row j size (write_row i size row flat) = if Nat.eqb j i then row else read_row j size flat.
 Proof. exact slice_write_read_lemma. Qed.
 Print Assumptions slice_write_read.
+
+(* write_to_shared_memory's loop over observation.items(), exactly as written, is the per-agent update
+   [write_shm] used in the statements above *)
+Theorem write_shm_loop_spec : forall i k (o : dict obs_t) (m : shm),
+  NoDup (keys o) ->
+  keys (write_shm_loop i k o m) = keys m /\
+  forall a, lookup a (write_shm_loop i k o m) = lookup a (write_shm i k o m).
+Proof. exact write_shm_loop_spec_lemma. Qed.
+Print Assumptions write_shm_loop_spec.
 
 (* the writes of two different workers commute: the sequential model covers every schedule *)
 Theorem write_commute : forall i j n k agents o1 o2 m,
